@@ -28,7 +28,7 @@ one() {
   git -C /repo worktree remove --force $WT 2>/dev/null
 }
 export -f one
-out=seeded/RESULTS.tsv
+out=${RESEED_OUT:-seeded/RESULTS.tsv}
 todo=()
 for d in seeded/*/; do
   d=${d%/}; s=$(basename $d); id=${s%-*}
